@@ -31,6 +31,9 @@ struct C {
     needs_union_double_int64: bool,
     needs_async: bool,
     prim_names: HashSet<String>,
+    /// Free helpers of anonymous primitive-only types, by typedef name: the
+    /// same typedef is shared by every `TypeId` with that structure.
+    prim_dtor_funcs: HashMap<String, String>,
     world: String,
     sizes: SizeAlign,
     renamed_interfaces: HashMap<WorldKey, String>,
@@ -1903,6 +1906,14 @@ impl InterfaceGenerator<'_> {
                     assert!(prev.is_none());
 
                     if defined {
+                        // The typedef and its free helper were already emitted
+                        // for another `TypeId` of the same structure; this one
+                        // must be freed by the same helper.
+                        let name = &self.r#gen.type_names[&ty];
+                        if let Some(dtor) = self.r#gen.prim_dtor_funcs.get(name) {
+                            let dtor = dtor.clone();
+                            self.r#gen.dtor_funcs.insert(ty, dtor);
+                        }
                         continue;
                     }
 
@@ -2030,6 +2041,11 @@ impl InterfaceGenerator<'_> {
             return;
         }
         self.src.c_helpers("}\n");
+        if self.r#gen.prim_names.contains(&name) {
+            self.r#gen
+                .prim_dtor_funcs
+                .insert(name.clone(), format!("{prefix}_free"));
+        }
         self.r#gen.dtor_funcs.insert(id, format!("{prefix}_free"));
     }
 
